@@ -165,9 +165,3 @@ func (eng *Engine) initModels() {
 	})
 }
 
-// lockOp: placeholder lock model (no state); replaced in locks.go when lock
-// obligations are enabled for a contract.
-func (fr *Frame) lockOp(name string, b *ssa.BasicBlock, c *ssa.CallCommon, args []Val, st *State, reach string, pos token.Pos) *Val {
-	fr.vc.trust("model: sync primitives are no-ops for the sequential semantics")
-	return nil
-}
